@@ -141,3 +141,103 @@ static std::vector<T> singles(Rng& r, std::size_t nrandom) {
 }  // namespace vh
 
 #endif
+
+//------------------------------------------------------------------------
+// floating-point input sets (bit patterns chosen from the case analysis of
+// FP.tla: zeros, subnormals, binade edges, halfway cases around 2^(p-1),
+// extremes, infinities, quiet and signalling NaNs of both signs)
+//------------------------------------------------------------------------
+#ifndef VH_FP_INPUTS
+#define VH_FP_INPUTS
+namespace vh {
+
+template<class F> struct fbits;
+template<> struct fbits<float> { typedef std::uint32_t U; enum { P = 24, EB = 8, BIAS = 127 }; };
+template<> struct fbits<double> { typedef std::uint64_t U; enum { P = 53, EB = 11, BIAS = 1023 }; };
+
+template<class F>
+static F from_bits(typename fbits<F>::U b) { F f; std::memcpy(&f, &b, sizeof(F)); return f; }
+template<class F>
+static typename fbits<F>::U to_bits(F f) { typename fbits<F>::U b; std::memcpy(&b, &f, sizeof(F)); return b; }
+
+// level 0: core specials (~70 values incl. signs); 1: + binade lattice; 2: + dense
+template<class F>
+static std::vector<F> fp_lattice(int level) {
+    typedef typename fbits<F>::U U;
+    const int P = fbits<F>::P, EB = fbits<F>::EB, BIAS = fbits<F>::BIAS;
+    const U FR = (U(1) << (P - 1)) - 1;              // fraction mask
+    const U EMAX = (U(1) << EB) - 1;
+    std::vector<U> m;
+    auto mk = [&](U ex, U fr) { return U((ex << (P - 1)) | (fr & FR)); };
+    // zeros, subnormals, smallest normals, largest finite, inf, NaNs
+    const U core[] = {0, 1, 2, FR, FR - 1, U(1) << (P - 2), mk(1, 0), mk(1, 1), mk(EMAX - 1, FR), mk(EMAX - 1, FR - 1), mk(EMAX - 1, 0),
+                      mk(EMAX, 0), mk(EMAX, U(1) << (P - 2)), mk(EMAX, 1), mk(EMAX, FR),
+                      mk(BIAS, 0), mk(BIAS, 1), mk(BIAS - 1, FR), mk(BIAS - 1, 0), mk(BIAS - 2, 0), mk(BIAS, U(1) << (P - 2)),
+                      mk(BIAS + 1, 0), mk(BIAS + 1, U(1) << (P - 3)), mk(BIAS + 1, U(1) << (P - 2)), mk(BIAS + 1, U(3) << (P - 3)),
+                      mk(BIAS - 1, 1), mk(BIAS - 2, FR),
+                      // around 2^(P-1) and 2^P: spacing 0.5, 1, 2
+                      mk(BIAS + P - 2, 0), mk(BIAS + P - 2, 1), mk(BIAS + P - 2, 2), mk(BIAS + P - 2, 3), mk(BIAS + P - 2, FR), mk(BIAS + P - 2, FR - 1),
+                      mk(BIAS + P - 1, 0), mk(BIAS + P - 1, 1), mk(BIAS + P - 1, FR), mk(BIAS + P, 0), mk(BIAS + P, 1),
+                      mk(BIAS + P - 3, 1), mk(BIAS + P - 3, 2), mk(BIAS + P - 3, 3), mk(BIAS + P - 3, FR),
+                      mk(BIAS + 30, 0), mk(BIAS + 31, 0), mk(BIAS + 31, 1), mk(BIAS + 32, 0), mk(BIAS + 62, 0), mk(BIAS + 63, 0), mk(BIAS + 64, 0),
+                      mk(BIAS + 3, U(5) << (P - 5)), mk(BIAS + 6, U(0x25) << (P - 8)), mk(BIAS - 10, 12345)};
+    for (U c : core) m.push_back(c);
+    if (level >= 1) {
+        int step = level >= 2 ? 1 : (EB == 8 ? 4 : 32);
+        for (U ex = 0; ex < EMAX; ex += U(step)) {
+            m.push_back(mk(ex, 0));
+            m.push_back(mk(ex, 1));
+            m.push_back(mk(ex, FR));
+            m.push_back(mk(ex, U(1) << (P - 2)));
+            if (level >= 2) { m.push_back(mk(ex, (U(1) << (P - 2)) - 1)); m.push_back(mk(ex, (U(1) << (P - 2)) + 1)); }
+        }
+        // halfway and near-halfway values k + 0.5 for small and large k
+        for (int e = 0; e < P + 1; ++e) {
+            U ex = U(BIAS + e);
+            if (e <= P - 2) {
+                U half = U(1) << (P - 2 - e);          // the 0.5 bit at this exponent
+                m.push_back(mk(ex, half));
+                m.push_back(mk(ex, half + 1));
+                m.push_back(mk(ex, half - 1));
+                m.push_back(mk(ex, half | (half << 1)));   // odd integer + 0.5
+                m.push_back(mk(ex, FR ^ (half - 1)));
+            }
+        }
+        for (int e = 1; e < 12; ++e) { m.push_back(mk(U(BIAS - e), 0)); m.push_back(mk(U(BIAS - e), FR)); m.push_back(mk(U(BIAS - e), 1)); }
+    }
+    std::sort(m.begin(), m.end());
+    m.erase(std::unique(m.begin(), m.end()), m.end());
+    std::vector<F> v;
+    const U SB = U(1) << (sizeof(F) * 8 - 1);
+    for (U x : m) { v.push_back(from_bits<F>(x)); v.push_back(from_bits<F>(x | SB)); }
+    return v;
+}
+
+template<class F>
+static F random_float(Rng& r) {
+    typedef typename fbits<F>::U U;
+    const int P = fbits<F>::P, EB = fbits<F>::EB, BIAS = fbits<F>::BIAS;
+    U b = U(r.next());
+    switch (r.next() % 4) {
+        case 0: break;                                           // any pattern
+        case 1: {                                                // moderate exponent
+            U ex = U(BIAS - 40 + int(r.next() % 80));
+            b = (b & ((U(1) << (P - 1)) - 1)) | (ex << (P - 1)) | (b & (U(1) << (sizeof(F) * 8 - 1)));
+            break;
+        }
+        case 2: {                                                // near 2^(P-1): few fractional bits
+            U ex = U(BIAS + P - 6 + int(r.next() % 8));
+            b = (b & ((U(1) << (P - 1)) - 1)) | (ex << (P - 1)) | (b & (U(1) << (sizeof(F) * 8 - 1)));
+            break;
+        }
+        default: {                                               // sparse significand
+            U ex = U(r.next() % ((U(1) << EB) - 1));
+            U fr = (U(1) << (r.next() % (P - 1))) | (U(1) << (r.next() % (P - 1)));
+            b = (ex << (P - 1)) | fr | (b & (U(1) << (sizeof(F) * 8 - 1)));
+        }
+    }
+    return from_bits<F>(b);
+}
+
+}  // namespace vh
+#endif
